@@ -919,6 +919,8 @@ func TestC12(t *testing.T) {
 	nMeth := arityTypes(c, sm, thorough)
 	c.Extra("arity_methods", nMeth)
 
+	c.Extra("client_side_dispatch_cases", clientSideDispatch(c, sm))
+
 	c.Extra("violation_classes", sm.classes)
 	if total := sm.total(); total > 0 {
 		c.Extra("violating_cases", total) // the collector only saw the recorded ones
@@ -934,6 +936,7 @@ func TestC12(t *testing.T) {
 		"x %d+ candidate method strings (every formatted name under every formatter, lower/upper/first-char case variants, malformed spellings, the empty string, alias names and targets) raw through HandleRequest; "+
 		"for alias tables none and all: 3 client namespaces x 5 client formatters x {plain struct, hand-written tagged struct, struct with one rpc_method-tagged field per universe name and alias name} through NewCustomClient; "+
 		"arity/types: %d methods = all signatures of arity 0..3 over 11 types (arity 0..2 also with a leading context), param arrays of length 0..k+1, %s, params absent/null/non-array; "+
+		"client-side handlers: every ordered pair of 5 client configurations (namespace x alias table) living in one process, 6 method strings sent to each by a bare WebSocket peer; "+
 		"reference model: map[formatted name]handler with later registration winning, one alias hop, encoding/json for decodability",
 		maxRegs, len(seqs), len(base), nMeth, prod))
 }
